@@ -943,6 +943,9 @@ func (h *handler1) snSend(pkt snPkts.Packet) error {
 	if err != nil {
 		return err
 	}
+	if len(buf) > snPkts1.MaxPacketLen {
+		return fmt.Errorf("packet too long: %d bytes (maximum %d)", len(buf), snPkts1.MaxPacketLen)
+	}
 	_, err = h.snConn.Write(buf)
 	if err != nil {
 		return err
